@@ -104,9 +104,10 @@ def static_plan(tier):
     if tier == "thorough":
         return [("ref3", "compact,sparse,dup", "dfs", 400), ("iso4", "compact,sparse", "dfs", 200),
                 ("shaped", "compact,sparse,dup", "dfs", 24), ("rand", "compact,sparse", "dfs", 24),
-                ("rand", "dup", "real", 1), ("mid", "compact,sparse", "dfs", 4)]
+                ("rand", "dup", "real", 1), ("mid", "compact,sparse", "dfs", 4), ("rand", "padded", "dfs", 4), ("iso4", "padded", "real", 1)]
     return [("ref3", "compact,sparse,dup", "dfs", 200), ("iso4", "compact,sparse", "dfs", 64),
-            ("shaped", "compact,sparse", "dfs", 8), ("rand", "compact,sparse", "dfs", 6), ("mid", "compact,sparse", "dfs", 2)]
+            ("shaped", "compact,sparse", "dfs", 8), ("rand", "compact,sparse", "dfs", 6), ("mid", "compact,sparse", "dfs", 2),
+            ("rand", "padded", "dfs", 2)]
 
 
 def nontrivial_static(segs, res, rule_kind):
@@ -148,8 +149,9 @@ def static_check(pid, tier, kinds, cert, rule_kind, rule, sems="GR,CO,PR,ST,SST,
                     cap=300 if sname in ("ref3", "iso4") else 400)       # SAT calls per query before it is declared non-terminating
         if extra:
             opts.update(extra)
-        segs = run_static(res, "%s_%s_%s" % (pid, sname, oracle), afs, **opts)
-        t1, st = vlib.judge("TraceStatic.tla", segs, res.wd, "%s_%s_%s" % (pid, sname, oracle), shards=8 if sname in ("mid", "shaped") else None)
+        rname = "%s_%s_%s_%s" % (pid, sname, present.replace(",", "+")[:14], oracle)
+        segs = run_static(res, rname, afs, **opts)
+        t1, st = vlib.judge("TraceStatic.tla", segs, res.wd, rname, shards=8 if sname in ("mid", "shaped") else None)
         res.add_judge(sname, t1, st, only_props={pid})
         allsegs += segs
     if "DC" in kinds or "DS" in kinds:
@@ -245,6 +247,7 @@ def c12(tier):
     out = os.path.join(res.wd, "store.ndjson")
     t = time.time()
     vlib.vh(["store", "--hists", hfile, "--labels", 3, "--walks", 200 if thorough else 40, "--len", 2000 if thorough else 500,
+             "--wide", 64 if thorough else 16, "--widelen", 1500 if thorough else 600,
              "--seed", seed(), "--out", out, "--threads", vlib.NCPU])
     segs = vlib.segments(out, openers=("reset",))
     log("  RUN store: %d histories (one per state of MCStore) x 24 outgoing edges + random walks -> %d events %.1fs" % (
@@ -258,7 +261,7 @@ def c12(tier):
         for e in seg[1:]:
             if e["o"]["op"] in ("rmarg", "rmatt") and e["res"] == "ok" and e["ev"] == "u":
                 removed = True
-            if removed:
+            if removed and "proj" in e:
                 nt.add((json.dumps(seg[0]), json.dumps(e["o"]), e["ev"], json.dumps(e["proj"]["atts"]), json.dumps(e["proj"]["args"])))
     res.nontrivial = len(nt)
     res.rule = ("every (state, operation) edge of Store.tla's state graph (3 labels, ids <= 4/5) executed on AAFramework<usize> and "
@@ -315,6 +318,7 @@ def dynamic_check(pid, tier, mode):
     runs.append(("walks_real", ["--walks", 3000 if thorough else 520, "--len", 60, "--oracle", "real"], 0))
     runs.append(("walks_rand", ["--walks", 1500 if thorough else 260, "--len", 40, "--oracle", "random"], 0))
     runs.append(("longwalks", ["--walks", 260 if thorough else 52, "--len", 300, "--oracle", "real"], 0))
+    runs.append(("widewalks", ["--wide", 260 if thorough else 52, "--len", 120, "--oracle", "real"], 0))
     nt = set()
     for name, extra, _ in runs:
         out = os.path.join(res.wd, name + ".ndjson")
@@ -493,8 +497,10 @@ def c17(tier):
             fs = [e for s in segs for e in s if e["ev"] == "fault" and e["out"]["faulted"]]
             if fs:
                 res.samples.append(fs[len(fs) // 2])
+    # every reply of <= 3 (4) lines that the specification classes as missing / truncated / malformed, through a real process
+    rfile, nr = export_replay(res, "MCExtReply.tla", open(os.path.join(vlib.SPEC, "MCExtReply.cfg")).read().replace("MaxLines = 3", "MaxLines = %d" % (4 if thorough else 3)), "MCExtReply")
     out = os.path.join(res.wd, "trunc.ndjson")
-    vlib.vh(["ext", "--volumes", ",".join("trunc:%d" % k for k in range(0, 31)), "--fakesat", FAKESAT, "--timeout_ms", 20000,
+    vlib.vh(["ext", "--replies", rfile, "--volumes", ",".join("trunc:%d" % k for k in range(0, 31)), "--fakesat", FAKESAT, "--timeout_ms", 20000,
              "--tmp", os.path.join(res.wd, "exttmp"), "--out", out, "--threads", vlib.NCPU])
     tsegs = vlib.segments(out, openers=("reset",))
     t1, st = vlib.judge("TraceExtSat.tla", tsegs, res.wd, "trunc")
@@ -603,6 +609,16 @@ def c16(tier):
         os.remove(logf)
     backend = "ext:%s|--log|%s" % (FAKESAT, logf)
     segs_q = run_static(res, "C16_queries", afs, sems="CO,PR,ST,SST,STG,ID", kinds="SE,DC,DS", cert="both", present="compact", oracle="real", backend=backend)
+    # ... and by the dynamic solvers (selectors, retired variables, variables that occur only negatively)
+    res_tmp = Result.__new__(Result)
+    res_tmp.wd = res.wd
+    res_tmp.add_mc = res.add_mc
+    hfile, nh = store_histories(res_tmp, 3)
+    dout = os.path.join(res.wd, "dyn_ext.ndjson")
+    vlib.vh(["dynamic", "--hists", hfile, "--stride", 6 if thorough else 30, "--kinds", "co,st,pr,coatt1.5,statt2", "--mode", "c08", "--oracle", "real",
+             "--backend", backend, "--seed", seed(), "--out", dout, "--threads", vlib.NCPU])
+    dsegs = vlib.segments(dout, openers=("reset",))
+    res.extra["dynamic_queries_aborted_with_external_backend"] = sum(1 for s in dsegs for e in s if e.get("ev") == "q" and e["panic"])
     dim = [json.loads(l) for l in open(logf)] if os.path.exists(logf) else []
     hsegs = [[{"ev": "reset", "what": "headers"}] + dim]
     t1, st = vlib.judge("TraceExtSat.tla", hsegs, res.wd, "headers", shards=4)
@@ -643,7 +659,8 @@ def c13(tier):
             f.write(open(p).read())
     out = os.path.join(res.wd, "io.ndjson")
     t = time.time()
-    vlib.vh(["io", "--files", allf, "--argstr", "yes", "--fuzz", 400000 if thorough else 60000, "--seed", seed(), "--out", out, "--threads", vlib.NCPU])
+    vlib.vh(["io", "--files", allf, "--argstr", "yes", "--fuzz", 400000 if thorough else 60000, "--big", 400 if thorough else 60,
+             "--seed", seed(), "--out", out, "--threads", vlib.NCPU])
     evs = [json.loads(l) for l in open(out)]
     # segments of bounded size (every event is self-contained)
     segs = [[{"ev": "reset"}] + evs[i:i + 20000] for i in range(0, len(evs), 20000)]
